@@ -33,8 +33,8 @@ MUTANTS = [
      '  half_projection = (weights + max_projection) / 3.0', 'L5',
      'half step not convex'),
     ('C01', 'lattice_lib.py', '      w = tf.minimum(w, self.output_max)', None, None, None),
-    ('C01', 'lattice_lib.py', '    final_projection += (min_violation - output_min)',
-     '    final_projection += (min_violation + output_min)', 'L7',
+    ('C01', 'lattice_lib.py', '    offset = output_min - (output_min - min_violation) * scale',
+     '    offset = output_min + (output_min - min_violation) * scale', 'L7',
      'two-sided rescale wrong offset'),
     ('C01', 'lattice_layer.py', '            output_min=self.output_min,\n            output_max=self.output_max)\n    # TODO',
      '            output_min=self.output_max,\n            output_max=self.output_min)\n    # TODO',
@@ -259,6 +259,7 @@ MUTANTS = [
     ('C02', 'lattice_lib.py', '    lower_corner_coordinates = tf.maximum(lower_corner_coordinates, 0)\n', '', 'H4', 'corner floor removed'),
     ('C11', 'aggregation_layer.py', "    config = dict(config)\n", '', 'S12', 'from_config pops from the caller dict'),
     ('C03', 'premade_lib.py', '                  feature_config.monotonicity, (list, tuple)) else None,', '                  feature_config.monotonicity, list) else None,', 'W6', 'tuple pairs not forwarded to the calibrator'),
+    ('C01', 'lattice_lib.py', '    final_projection = final_projection * scale + offset\n', '    final_projection = (final_projection - output_min) * scale + offset + output_min * scale\n', 'R2', 'kernel translated by the bound before scaling'),
     ('C17', 'premade_lib.py', '        # going out of bound on the lattice\n        addition_score = -2.0',
      '        # going out of bound on the lattice\n        addition_score = -1.0', 'W7', 'full lattice ties with a repeat'),
     ('C17', 'premade_lib.py', '        # going out of bound on the lattice\n        addition_score = -2.0',
